@@ -39,6 +39,7 @@ class PropositionCtor(Contract):
         p.heap["Proposition.hedges"] = z3.Store(H["Proposition.hedges"], r, z3.Empty(SeqRef))
         p.heap["Proposition.term"] = z3.Store(H["Proposition.term"], r, NONE)
         ex.writes |= set(s.modifies)
+        p.env["__newprop__"] = r
         return RefV(r, "Proposition")
 
 
@@ -54,6 +55,7 @@ class OperatorCtor(Contract):
         p.heap["Operator.left"] = z3.Store(H["Operator.left"], r, NONE)
         p.heap["Operator.right"] = z3.Store(H["Operator.right"], r, NONE)
         ex.writes |= set(s.modifies)
+        p.env["__newop__"] = r
         return RefV(r, "Operator")
 
 
@@ -78,7 +80,7 @@ def verify_rule_parse(run):
     S_BEGIN, S_IF, S_THEN, S_WITH, S_END = range(5)
 
     def parts(p):
-        A, C = p.env["antecedent"].q, p.env["consequent"].q
+        A, C = ex.local(p, "antecedent").q, ex.local(p, "consequent").q
         return A, C, z3.Length(A), z3.Length(C)
 
     def shape(p, toks, state, k):
@@ -154,7 +156,7 @@ def verify_consequent_load(run):
         st = p.env["state"]
         if not isinstance(st, int) or st not in (S["variable"], S["is"], HT, AW):
             return z3.BoolVal(False)
-        concl = p.env["conclusions"].q
+        concl = ex_.local(p, "conclusions").q
         lc = z3.Length(concl)
         prop = p.env["proposition"]
         H = p.heap
@@ -173,7 +175,7 @@ def verify_consequent_load(run):
         return z3.And(*base, cur, H["Proposition.term"][concl[lc - 1]] != NONE)         # and|with: the current conclusion is complete
 
     def facts(ex_, p, k, seq):
-        concl = p.env["conclusions"]
+        concl = ex_.local(p, "conclusions")
         if not isinstance(concl, SeqV):
             return []
         lc = z3.Length(concl.q)
@@ -200,10 +202,130 @@ def verify_consequent_load(run):
         ok = z3.And(lc > 0, z3.Implies(z3.And(jS >= 0, jS < lc), z3.And(concl[jS] != NONE, q.heap["Proposition.variable"][concl[jS]] != NONE, q.heap["Proposition.term"][concl[jS]] != NONE)))
         run.add(Obl(f"{fq}/accepts_only_complete_conclusions{tag}", q.pc + str_distinct(), ok, fn=fq, meta={"replay": RP}))
 
+# ------------------------------------------------------------------------------------------------ Antecedent.load
+def verify_antecedent_load(run):
+    src = run.src
+    fq = "rule.Antecedent.load"
+    fn = src.func("rule", "Antecedent.load")
+    run.under_contract("rule", "Antecedent.load", fn)
+    sc = W.schema(src)
+    H0 = init_heap(sc)
+    self_, eng = z3.Const("self", Ref), z3.Const("engine", Ref)
+    S = {nm: 2 ** i for i, nm in enumerate(["variable", "is", "hedge", "term", "and_or"])}
+    HT, VA = S["hedge"] | S["term"], S["variable"] | S["and_or"]
+    jS = z3.Int("j*")
+    PROP, OPER = sc.ids["Proposition"], sc.ids["Operator"]
+    # ghost (defined once per node, when it is created): gstart(node) = ordinal of the first proposition of the tree, gcnt(node) = number
+    # of propositions in it; nP(k) = number of propositions read in the first k tokens.  The stack elements tile [0, nP(k)) in order, so a
+    # successful load whose expression does not start at 0 or does not reach nP has silently dropped an operand.
+    gstart, gcnt = z3.Function("gstart", Ref, z3.IntSort()), z3.Function("gcnt", Ref, z3.IntSort())
+    nP = z3.Function("nP", z3.IntSort(), z3.IntSort())
+
+    def tile(stack, ls, j, k):
+        return z3.Implies(z3.And(j >= 0, j < ls), z3.And(gcnt(stack[j]) >= 1, z3.Implies(j == 0, gstart(stack[j]) == 0),
+                                                        gstart(stack[j]) + gcnt(stack[j]) == z3.If(j + 1 < ls, gstart(stack[j + 1]), nP(k))))
+
+    def ghost(ex_, q, k, seq):
+        out = []
+        if "__newprop__" in q.env:
+            r = q.env["__newprop__"]
+            out += [nP(k + 1) == nP(k) + 1, gstart(r) == nP(k), gcnt(r) == 1]
+        elif "__newop__" in q.env:
+            r = q.env["__newop__"]
+            l_, r_ = q.heap["Operator.left"][r], q.heap["Operator.right"][r]
+            out += [nP(k + 1) == nP(k), gstart(r) == gstart(l_), gcnt(r) == gcnt(l_) + gcnt(r_)]
+        else:
+            out += [nP(k + 1) == nP(k)]
+        return out
+
+    def node_ok(H, x, complete=True):
+        """a stack element: a proposition with a variable (complete: with a term or ending in `any`), or an operator with both operands"""
+        hs = H["Proposition.hedges"][x]
+        n = z3.Length(hs)
+        prop_ok = z3.And(H["Proposition.variable"][x] != NONE,
+                         z3.Or(H["Proposition.term"][x] != NONE, z3.And(n > 0, cls_of(hs[n - 1]) == sc.ids["Any"])) if complete else z3.BoolVal(True))
+        op_ok = z3.And(H["Operator.left"][x] != NONE, H["Operator.right"][x] != NONE)
+        return z3.And(x != NONE, z3.Or(z3.And(cls_of(x) == PROP, prop_ok), z3.And(cls_of(x) == OPER, op_ok)))
+
+    def inv(ex_, p, k, seq):
+        st = p.env["state"]
+        if not isinstance(st, int) or st not in (S["variable"], S["is"], HT, VA):
+            return z3.BoolVal(False)
+        stack = ex_.local(p, "stack").q
+        ls = z3.Length(stack)
+        prop = p.env["proposition"]
+        H = p.heap
+        top_open = st in (S["is"], HT)      # the proposition on top of the stack is still being read
+        elems = z3.Implies(z3.And(jS >= 0, jS < ls), z3.And(alloc(stack[jS]) < ex_.now(p), node_ok(H, stack[jS], complete=False),
+                                                          z3.Implies(jS < ls - 1, alloc(stack[jS]) < alloc(stack[ls - 1])),      # the top is the newest object: elements are distinct
+                                                          z3.Implies(z3.Or(jS < ls - 1, z3.BoolVal(not top_open)), node_ok(H, stack[jS], complete=True))))
+        base = [H["Antecedent.expression"][self_] == NONE, elems, tile(stack, ls, jS, k), nP(k) >= 0, z3.Implies(ls == 0, nP(k) == 0)]
+        if st == S["variable"]:
+            return z3.And(*base, ls == 0)
+        if st == VA:
+            return z3.And(*base, ls > 0)
+        cur = z3.And(ls > 0, prop.r == stack[ls - 1], prop.r != NONE, cls_of(prop.r) == PROP, H["Proposition.variable"][prop.r] != NONE) if isinstance(prop, RefV) else z3.BoolVal(False)
+        return z3.And(*base, cur)
+
+    def inst(ex_, p, k, seq):
+        # instances of the element invariant at the positions the body pops (top and second from top)
+        stack = ex_.local(p, "stack").q
+        ls = z3.Length(stack)
+        H = p.heap
+        st = p.env["state"]
+        out = []
+        for off in (1, 2):
+            j = ls - off
+            out.append(z3.Implies(j >= 0, z3.And(alloc(stack[j]) < ex_.now(p), node_ok(H, stack[j], complete=(off == 2 or st not in (S["is"], HT))))))
+        for j in (ls - 1, ls - 2, ls - 3, jS + 1, jS - 1):
+            out.append(tile(stack, ls, j, k))
+        return out
+
+    contracts = {"Proposition": PropositionCtor(), "Operator": OperatorCtor()}
+
+    class InfixToPostfix(Contract):
+        """Function.infix_to_postfix(text): returns some postfix text or raises SyntaxError (unbalanced parentheses); its own checks are below"""
+
+        def call(s, ex_, p, recv, args, kwargs, node):
+            q = p.fork(); ex_.raised.append((q, "SyntaxError"))
+            return StrV(ex_.fresh(Str, "postfix"))
+    contracts["Function.infix_to_postfix"] = InfixToPostfix()
+
+    class AExec(ParserExec):
+        def ev_Call(s, p, e):
+            if ast.unparse(e.func) == "Function.infix_to_postfix":
+                return contracts["Function.infix_to_postfix"].call(s, p, None, [s.ev(p, a) for a in e.args], {}, e)
+            return super().ev_Call(p, e)
+
+    ex = AExec(src, "rule", sc, contracts=contracts, interfaces=W.INTERFACES, inline={"Antecedent.unload", "Engine.variables"},
+               loops={0: LoopSpec(inv, inst=inst, ghost=ghost, name="loop0", modifies={"Proposition.variable", "Proposition.hedges", "Proposition.term", "Operator.name", "Operator.left", "Operator.right"},
+                                  cases=[{"state": v} for v in (S["variable"], S["is"], HT, VA)])}, fnname=fq)
+    pre = [self_ != NONE, eng != NONE, nP(0) == 0]          # nP(0) == 0: ghost definition
+    ex.skolems = [jS, jS + 1, jS - 1]
+    outs = ex.run_fn(fn, HPath({"self": RefV(self_, "Antecedent"), "engine": RefV(eng, "Engine")}, pre, H0))
+    ntok = None
+    emit(run, ex, fq, [], RP)
+    raise_obligations(run, fq, outs)
+    for i, (kind, val, q) in enumerate(outs):
+        tag = f"[path{i}]"
+        if kind == "raise":
+            run.add(Obl(f"{fq}/raises.leaves_unloaded{tag}", q.pc + str_distinct(), q.heap["Antecedent.expression"][self_] == NONE, fn=fq, meta={"replay": RP}))
+            continue
+        e_ = q.heap["Antecedent.expression"][self_]
+        st = q.env["state"]
+        # success => the final state accepts (not a dangling `is` / hedge), exactly one tree remains, and it is a complete node
+        run.add(Obl(f"{fq}/accepts_only_wellformed{tag}", q.pc + str_distinct(), z3.And(z3.BoolVal(st == VA), node_ok(q.heap, e_, complete=True)), fn=fq, meta={"replay": RP}))
+        # ... and that tree contains EVERY proposition that was read (no operand silently dropped: a missing operator is a rejection)
+        L = z3.Length(split_fn(q.env["postfix"].t)) if isinstance(q.env.get("postfix"), StrV) else None
+        if L is None:
+            run.add(undecided(f"{fq}/accepts_only_complete_tree{tag}", "token sequence of the loop not found", fn=fq))
+        else:
+            run.add(Obl(f"{fq}/accepts_only_complete_tree{tag}", q.pc + str_distinct(), z3.And(gstart(e_) == 0, gcnt(e_) == nP(L)), fn=fq, meta={"replay": RP}))
+
 
 def build(run):
     run.assume("A-STR", "A-PY", "A-MSG", "A-LOG", "A-LISTVAL", "A-FRESH")
-    plan = [("rule.Rule.parse", verify_rule_parse), ("rule.Consequent.load", verify_consequent_load)]
+    plan = [("rule.Rule.parse", verify_rule_parse), ("rule.Consequent.load", verify_consequent_load), ("rule.Antecedent.load", verify_antecedent_load)]
     for fq, f in plan:
         try:
             f(run)
